@@ -136,6 +136,73 @@ func expandCond(v ssa.Value, truth bool, depth int) []Cond {
 	return out
 }
 
+// Alternatives: a condition that is a merge of several ways of being true (or false) - the value of `a || b` kept in a
+// variable, `isListOrMap := kind == Slice || kind == Map` - has one alternative per incoming edge that can give it that
+// truth: the conditions known on that edge. A fact that every alternative establishes holds. Nil if the condition is no
+// such merge (or has a single candidate edge, which expandCond resolves itself).
+func Alternatives(c Cond) [][]Cond {
+	return alternatives(c.V, c.True, 0)
+}
+
+func alternatives(v ssa.Value, truth bool, depth int) [][]Cond {
+	phi, ok := v.(*ssa.Phi)
+	if !ok || depth > 4 {
+		return nil
+	}
+	if bt, isBasic := phi.Type().Underlying().(*types.Basic); !isBasic || bt.Kind() != types.Bool {
+		return nil
+	}
+	var out [][]Cond
+	for i, e := range phi.Edges {
+		if k, isConst := e.(*ssa.Const); isConst && k.Value != nil && k.Value.Kind() == constant.Bool && constant.BoolVal(k.Value) != truth {
+			continue
+		}
+		pred := phi.Block().Preds[i]
+		var alt []Cond
+		if _, isConst := e.(*ssa.Const); !isConst {
+			alt = append(alt, expandCond(e, truth, depth+1)...)
+		}
+		alt = append(alt, condsAt(pred, depth+1)...)
+		alt = append(alt, edgeConds(pred, phi.Block(), depth+1)...)
+		out = append(out, alt)
+	}
+	if len(out) < 2 {
+		return nil
+	}
+	return out
+}
+
+// Establishes: est accepts the condition, or every alternative of it holds a condition that est accepts (recursively).
+func Establishes(c Cond, est func(Cond) bool) bool {
+	return establishes(c, est, 0)
+}
+
+func establishes(c Cond, est func(Cond) bool, depth int) bool {
+	if est(c) {
+		return true
+	}
+	if depth > 3 {
+		return false
+	}
+	alts := Alternatives(c)
+	if len(alts) == 0 {
+		return false
+	}
+	for _, alt := range alts {
+		found := false
+		for _, a := range alt {
+			if establishes(a, est, depth+1) {
+				found = true
+				break
+			}
+		}
+		if !found {
+			return false
+		}
+	}
+	return true
+}
+
 // NilCmp decodes `x == nil` / `x != nil` (either operand order). Returns the non-nil operand and whether the
 // comparison is "!=".
 func NilCmp(v ssa.Value) (x ssa.Value, neq bool, ok bool) {
@@ -506,7 +573,7 @@ func MustHold(fn *ssa.Function, est func(Cond) bool) map[*ssa.BasicBlock]bool {
 			return false
 		}
 		for _, c := range expandCond(ifi.Cond, p.Succs[0] == b, 0) {
-			if est(c) {
+			if Establishes(c, est) {
 				return true
 			}
 		}
@@ -889,4 +956,187 @@ func RecordSources(v ssa.Value) (srcs []ssa.Value, ok bool) {
 		return nil, false
 	}
 	return srcs, true
+}
+
+// PathExists: some path from the edge from->start (from may be nil: start is then the entry) reaches a block accepted
+// by target, under a valuation of the conditions: val says, for a boolean SSA value, what it is on the paths of interest
+// (known false: not decided by val - the path may take either side, unless the value is a merge whose incoming value on
+// the path is known). Boolean phis take the value of the edge the path came over, negations are evaluated, and a branch
+// on a value that is known is followed only to the side that agrees. passed is told every instruction on the path;
+// target is asked with the block and the block the path entered it from.
+func PathExists(from, start *ssa.BasicBlock, val func(ssa.Value) (truth bool, known bool),
+	passed func(ssa.Instruction), target func(b, prev *ssa.BasicBlock, env func(ssa.Value) (bool, bool)) bool) bool {
+	type state struct {
+		b   *ssa.BasicBlock
+		env string
+	}
+	seen := map[state]bool{}
+	steps := 0
+	var walk func(prev, b *ssa.BasicBlock, env map[ssa.Value]bool) bool
+	walk = func(prev, b *ssa.BasicBlock, env map[ssa.Value]bool) bool {
+		steps++
+		if steps > 20000 {
+			return false
+		}
+		var eval func(v ssa.Value, d int) (bool, bool)
+		eval = func(v ssa.Value, d int) (bool, bool) {
+			if d > 6 {
+				return false, false
+			}
+			if k, isConst := v.(*ssa.Const); isConst && k.Value != nil && k.Value.Kind() == constant.Bool {
+				return constant.BoolVal(k.Value), true
+			}
+			if t, known := env[v]; known {
+				return t, true
+			}
+			if u, isNot := v.(*ssa.UnOp); isNot && u.Op == token.NOT {
+				t, known := eval(u.X, d+1)
+				return !t, known
+			}
+			if bin, isBin := v.(*ssa.BinOp); isBin && (bin.Op == token.EQL || bin.Op == token.NEQ) {
+				// comparison with a bool constant
+				for _, pr := range [][2]ssa.Value{{bin.X, bin.Y}, {bin.Y, bin.X}} {
+					if k, isConst := pr[1].(*ssa.Const); isConst && k.Value != nil && k.Value.Kind() == constant.Bool {
+						if t, known := eval(pr[0], d+1); known {
+							return (t == constant.BoolVal(k.Value)) == (bin.Op == token.EQL), true
+						}
+					}
+				}
+			}
+			if val != nil {
+				return val(v)
+			}
+			return false, false
+		}
+		idx := -1
+		for i, q := range b.Preds {
+			if q == prev {
+				idx = i
+			}
+		}
+		next := map[ssa.Value]bool{}
+		for k, v := range env {
+			next[k] = v
+		}
+		for _, in := range b.Instrs {
+			phi, ok := in.(*ssa.Phi)
+			if !ok {
+				break
+			}
+			if bt, ok := phi.Type().Underlying().(*types.Basic); !ok || bt.Kind() != types.Bool || idx < 0 {
+				continue
+			}
+			if t, known := eval(phi.Edges[idx], 0); known {
+				next[phi] = t
+			} else {
+				delete(next, phi)
+			}
+		}
+		var keys []string
+		for k, v := range next {
+			t := "0"
+			if v {
+				t = "1"
+			}
+			keys = append(keys, k.Name()+"="+t)
+		}
+		sortStrings(keys)
+		st := state{b, ""}
+		for _, k := range keys {
+			st.env += k + ";"
+		}
+		if seen[st] {
+			return false
+		}
+		seen[st] = true
+		env = next
+		if passed != nil {
+			for _, in := range b.Instrs {
+				passed(in)
+			}
+		}
+		if target(b, prev, func(v ssa.Value) (bool, bool) { return eval(v, 0) }) {
+			return true
+		}
+		if len(b.Instrs) > 0 {
+			if ifi, ok := b.Instrs[len(b.Instrs)-1].(*ssa.If); ok && b.Succs[0] != b.Succs[1] {
+				if t, known := eval(ifi.Cond, 0); known {
+					if t {
+						return walk(b, b.Succs[0], env)
+					}
+					return walk(b, b.Succs[1], env)
+				}
+				// free: take either side, remembering the choice
+				for i, sc := range b.Succs {
+					chosen := map[ssa.Value]bool{}
+					for k, v := range env {
+						chosen[k] = v
+					}
+					chosen[ifi.Cond] = i == 0
+					if walk(b, sc, chosen) {
+						return true
+					}
+				}
+				return false
+			}
+		}
+		for _, sc := range b.Succs {
+			if walk(b, sc, env) {
+				return true
+			}
+		}
+		return false
+	}
+	return walk(from, start, map[ssa.Value]bool{})
+}
+
+// CmpConst normalises a condition that compares a value with a constant, whichever side the constant is written on and
+// whichever polarity the condition has: it returns the value, the constant and the relation that HOLDS between them
+// (`!(x > k)` and `k >= x` both give x <= k).
+func CmpConst(c Cond) (x ssa.Value, op token.Token, k constant.Value, ok bool) {
+	bin, isBin := c.V.(*ssa.BinOp)
+	if !isBin {
+		return nil, 0, nil, false
+	}
+	op = bin.Op
+	switch op {
+	case token.LSS, token.LEQ, token.GTR, token.GEQ, token.EQL, token.NEQ:
+	default:
+		return nil, 0, nil, false
+	}
+	if kc, isConst := bin.Y.(*ssa.Const); isConst && kc.Value != nil {
+		x, k = bin.X, kc.Value
+	} else if kc, isConst := bin.X.(*ssa.Const); isConst && kc.Value != nil {
+		x, k = bin.Y, kc.Value
+		// k op x  ==  x flip(op) k
+		switch op {
+		case token.LSS:
+			op = token.GTR
+		case token.LEQ:
+			op = token.GEQ
+		case token.GTR:
+			op = token.LSS
+		case token.GEQ:
+			op = token.LEQ
+		}
+	} else {
+		return nil, 0, nil, false
+	}
+	if !c.True {
+		switch op {
+		case token.LSS:
+			op = token.GEQ
+		case token.LEQ:
+			op = token.GTR
+		case token.GTR:
+			op = token.LEQ
+		case token.GEQ:
+			op = token.LSS
+		case token.EQL:
+			op = token.NEQ
+		case token.NEQ:
+			op = token.EQL
+		}
+	}
+	return x, op, k, true
 }
